@@ -30,6 +30,15 @@ checks = {
  "C08": (EXPL, "4 C08", "stateful PBT of the five write operations outside stabilise, from writer node functions and from handlers, against a program-order model",
    "get()/replace() results are compared immediately; writes logged inside stabilise are composed in log order by the model and compared after the round; is_stable() must be false after a deferred write to a needed variable; the next round must propagate the composed value (C01 oracle).",
    "no claim about what get/replace return from inside a node function (not stated by the property)"),
+ "C10": (EXPL, "4 C10", "exhaustive enumeration of short action strings + random longer strings against an explicit lifecycle state machine",
+   "All strings of lifecycle letters up to length 4 (quick) / 6 (thorough) on two observers of one node are executed, every handle read after every letter and every return value compared with an explicit state machine; the sibling observer's values and notification sequence must be unaffected. Longer random strings extend the bound.",
+   "two observers on one node; trusted: the lifecycle state machine in harness/src/engine.rs"),
+ "C11": (EXPL, "4 C11", "stateful PBT calling a cfg-guarded engine audit (port of the OCaml Node/State invariants) after every single API action",
+   "IncrState::verif_audit() (hook) walks every live node: symmetric edges with matching indices, heights above inputs and creating bind, unneeded nodes unlinked and unscheduled, recompute heap = needed-and-stale nodes once each at their height, adjust-heights heap empty, quiescence after stabilise, stats().necessary and handler counts. Called after each action of generated histories.",
+   "trusted: the audit port in /repo/src/verif_audit.rs (add-only, cfg-guarded)"),
+ "C13": ("fault_enumeration", "4 C13", "fault enumeration: a panic injected at every individual user-function invocation of generated programs, then observer reads / re-stabilise / drops checked",
+   "Each generated program is re-executed once per user-function invocation it performs, with a panic injected there and caught by the caller; afterwards reads must fail (or, for a handler fault, equal the fully propagated model values), a further stabilise must refuse without invoking anything, and dropping everything must not panic or abort (worker processes detect aborts). Both build configurations.",
+   "faults are injected only in functions the harness supplies (node functions, bind closures, boxed/fn cutoffs, handlers); bounded program sizes"),
  "C09": (EXPL, "4 C09", "stateful PBT with a per-subscription notification model (Initialised once, Changed iff changed, one Invalidated, nothing after the end)",
    "Every delivered update is logged with the value the observer returns at that moment and the values of all other observers; per-subscription sequences are compared with the model for each round.",
    "handler order across subscriptions unspecified: oracles are per subscription"),
